@@ -192,42 +192,48 @@ fn set_operation<R: Read + Seek, W: Write>(
                         let has_verification = fh0.contains_verification() || fh1.contains_verification();
                         let has_metadata_ext = fh0.contains_metadata_ext() || fh1.contains_metadata_ext();
 
+                        // The segments and the verification entries describe one particular segmentation of
+                        // the file (the same file may be segmented differently in the two shards, depending
+                        // on what it was deduplicated against), so both are taken from the same side: the
+                        // one that carries the verification entries.
+                        let (base_idx, other_idx) = if fh1.contains_verification() && !fh0.contains_verification() {
+                            (1, 0)
+                        } else {
+                            (0, 1)
+                        };
+                        let (base_header, other_header) = if base_idx == 0 { (fh0, fh1) } else { (fh1, fh0) };
+
                         let header = FileDataSequenceHeader::new(
-                            fh0.file_hash,
-                            fh0.num_entries,
+                            base_header.file_hash,
+                            base_header.num_entries,
                             has_verification,
                             has_metadata_ext,
                         );
                         out_offset += header.serialize(out)? as u64;
 
-                        // copy over the entries from fh0 and advance forward with fh1
-                        for _ in 0..fh0.num_entries {
-                            let entry = FileDataSequenceEntry::deserialize(r[0])?;
+                        // copy over the entries from the base and skip those of the other
+                        for _ in 0..base_header.num_entries {
+                            let entry = FileDataSequenceEntry::deserialize(r[base_idx])?;
                             footer.materialized_bytes += entry.unpacked_segment_bytes as u64;
                             entry.serialize(out)?;
                         }
 
-                        out_offset += (fh0.num_entries as u64) * (size_of::<FileDataSequenceEntry>() as u64);
-                        r[1].seek(SeekFrom::Current((fh1.num_entries as i64) * (MDB_FILE_INFO_ENTRY_SIZE as i64)))?;
+                        out_offset += (base_header.num_entries as u64) * (size_of::<FileDataSequenceEntry>() as u64);
+                        r[other_idx].seek(SeekFrom::Current(
+                            (other_header.num_entries as i64) * (MDB_FILE_INFO_ENTRY_SIZE as i64),
+                        ))?;
 
-                        // if we have verification entries, copy them over from the appropriate shard and
-                        // advance the other reader
-                        if has_verification {
-                            let (read_idx, advance_idx) = if fh0.contains_verification() { (0, 1) } else { (1, 0) };
-                            let (read_header, advance_header) = if fh0.contains_verification() {
-                                (fh0, fh1)
-                            } else {
-                                (fh1, fh0)
-                            };
-                            for _ in 0..read_header.num_entries {
-                                let entry = FileVerificationEntry::deserialize(r[read_idx])?;
+                        // the verification entries of the base, if any; those of the other are skipped
+                        if base_header.contains_verification() {
+                            for _ in 0..base_header.num_entries {
+                                let entry = FileVerificationEntry::deserialize(r[base_idx])?;
                                 out_offset += entry.serialize(out)? as u64;
                             }
-                            if advance_header.contains_verification() {
-                                r[advance_idx].seek(SeekFrom::Current(
-                                    (advance_header.num_entries as i64) * (MDB_FILE_INFO_ENTRY_SIZE as i64),
-                                ))?;
-                            }
+                        }
+                        if other_header.contains_verification() {
+                            r[other_idx].seek(SeekFrom::Current(
+                                (other_header.num_entries as i64) * (MDB_FILE_INFO_ENTRY_SIZE as i64),
+                            ))?;
                         }
 
                         // if we have metadata_ext, copy it over from the appropriate shard and advance the
